@@ -79,7 +79,11 @@ pub fn copy_file_offset(infd: &File, outfd: &File, bytes: u64, off: i64) -> Resu
             Some(Err(e)) => return Err(e),
             None => {
                 let uoff = off as u64 + written;
-                written += copy_range_uspace(infd, outfd, remaining as usize, uoff as usize)? as u64;
+                let copied = copy_range_uspace(infd, outfd, remaining as usize, uoff as usize)?;
+                if copied == 0 {
+                    break;
+                }
+                written += copied as u64;
             }
         }
     }
